@@ -142,6 +142,16 @@ pub fn generate(tier: Tier, rng: &mut Rng) -> Vec<Case> {
         c.tags = vec![tag, if sx.matches('(').count() > 2 { "compound" } else { "scalar" }];
         out.push(c);
     };
+    // a burst of conversions that fail deep inside (a tuple-keyed map three levels down), followed
+    // by ordinary ones: a failed conversion must leave nothing behind that makes later ones fail
+    // (cases run in contiguous chunks per worker thread, so the burst stays on one thread)
+    for i in 0..260u32 {
+        let bad_map = Any::Map(vec![(Any::Tuple(vec![Any::I32(i as i32), Any::I32(1)]), Any::U8(1))]);
+        push(&Any::Seq(vec![Any::Struct("S", vec![("inner", Any::Seq(vec![bad_map]))])]), "failing-burst");
+    }
+    for i in 0..40i64 {
+        push(&Any::Seq(vec![Any::I64(i), Any::Struct("S", vec![("a", Any::Map(vec![(Any::Str("k".into()), Any::Seq(vec![Any::Bool(true)]))]))])]), "after-burst");
+    }
     // every constructor at least once
     let mut r2 = rng.fork();
     for _ in 0..400 {
@@ -161,7 +171,7 @@ pub fn generate(tier: Tier, rng: &mut Rng) -> Vec<Case> {
     }
     // host types whose Serialize impl depends on `is_human_readable()` (predicate only: the data
     // model of the Lean side has no such notion)
-    for i in 0..9 {
+    for i in 0..16 {
         let mut c = Case::new("serdehr", i.to_string());
         c.tags = vec!["human-readable", "compound", "no-model"];
         out.push(c);
